@@ -65,3 +65,14 @@ PROPS.update({
     "C09": _search("C09", "search_cycle for bfs/dfs/pfs: presence iff the root reaches itself through >=1 accepted edges (undirected: accepted half-edges), result starts/ends at root, chained existing accepted edges; directed: no edge / intermediate node twice, root not inside, bfs result of minimum length. " + ENUM, "3:4", "3:5,4:4", 400, 6000, ["acyclic_roots", "selfloop_cycles", "cycles_len_ge3"]),
     "C10": _search("C10", "preorder()/postorder() (directed) and order().pre()/.post() (undirected): search_nodes is a permutation of the model's reachable set with the root first/last and is producible by some DFS (preorder: exact stack simulation; postorder: exact back-tracking decision with a step budget, necessary conditions only beyond, counted separately); search_edges = one existing accepted edge per non-root node in the same order. " + ENUM, "3:4", "3:5,4:4", 400, 6000, ["orders_ge3_nodes", "postorder_exact_decisions"]),
 })
+
+PROPS["C11"] = {
+    "id": "C11", "cmd": "scc", "level": "exploration",
+    "rule": "every directed graph (self-loops allowed) on 1..N nodes, N=3 quick / 4 thorough, as an edge set with varying insertion order, plus a fixed family of non-simple components (figure-8, nested cycles, cycle-with-chord, DAG-of-cycles, parallel edges) and seeded random graphs up to 30 nodes; each graph is put into several container instances (own hash iteration order, shuffled insertion order) and scc() is compared with Tarjan on the observed graph: partition of the members, same component iff mutually reachable. distinct = distinct (flavour, graph, container iteration order).",
+    "shards": {"quick": 8, "thorough": 16},
+    "args": {"quick": ["--max-n", "3", "--instances", "4", "--random", "200"], "thorough": ["--max-n", "4", "--instances", "4", "--random", "4000"]},
+    "exhaustive": {"quick": True, "thorough": True},
+    "require": {"any": ["enumerations_completed", "graphs_with_non_simple_component", "graphs_with_several_components_one_nontrivial", "fixed_family_graphs", "random_graphs", "distinct_container_iteration_orders"]},
+    "assumptions": ["all neighbours of members are members (premise of the property)", "the hash order of a container instance is not reproducible; replay re-runs 64 instances"],
+    "timeout": {"quick": 300, "thorough": 2400},
+}
